@@ -33,10 +33,15 @@ type c13RenderObs struct {
 func c13RunRenderHistory(h *spemitRenderHist, method, keyName, label string, onEval func(class, id string)) (findings []spemitFinding, obs []c13RenderObs, drift []string) {
 	rng := newRand(label)
 	base, c, s, binding := spemitRenderSetup(h, method, keyName, rng)
+	// the environment of the history: what the IdP's metadata wants and the SP's certificate chain (spec/SPEmit.tla
+	// IdpWants x Chains), drawn once per history
+	base.Cfg.IdpWants, base.Cfg.Chain = c13EnvWants[rng.Intn(len(c13EnvWants))], c13EnvChains[rng.Intn(len(c13EnvChains))]
+	spemitApplyEnv(s, base)
 	mk := fmt.Sprintf("method=%s:key=%s", method, keyName)
 	if h.Build == "unsigned" {
 		mk = "method=off:key=" + keyName
 	}
+	mk += base.envSuffix()
 	pfx := fmt.Sprintf("C13:renders:%s:built=%s", h.Kind, h.Build)
 	val, err, panicked := spemitMakeValue(s, h.Kind, binding, c)
 	if err != nil || panicked != "" {
